@@ -4,6 +4,7 @@ import hashlib
 import json
 import os
 import random
+import re
 import shutil
 import time
 
@@ -219,15 +220,13 @@ def gen_replay(prop, tier, seed, verdict, cov):
     import gen_seeds
     fens = ['startpos'] + gen_seeds.read('corner.fen') + gen_seeds.read('perft.fen')
     with open(out_file, 'w') as f:
-        for line in out.split('\n'):
-            if line.startswith('<<"GEN", '):
-                # TLC prints the JSON string inside a tuple: <<"GEN", "....">>
-                js = line[len('<<"GEN", "'):-3]
-                js = js.replace('\\"', '"').replace('\\\\', '\\')
-                rec = json.loads(js)
-                rec['fen'] = fens[rec['seed'] - 1]
-                f.write(json.dumps(rec, separators=(',', ':')) + '\n')
-                n += 1
+        for js in re.findall(r'<<\s*"GEN",\s*"(.*?)"\s*>>', out, re.S):
+            # TLC prints the JSON string inside a tuple: <<"GEN", "....">>
+            js = js.replace('\\"', '"').replace('\\\\', '\\')
+            rec = json.loads(js)
+            rec['fen'] = fens[rec['seed'] - 1]
+            f.write(json.dumps(rec, separators=(',', ':')) + '\n')
+            n += 1
     gen, dist = mc_stats(out)
     p = run_harness(['chess-replay', '--in', out_file, '--out', os.path.join(d, 'res.json')])
     res = json.load(open(os.path.join(d, 'res.json')))
@@ -266,7 +265,7 @@ def merged_key_check(prop, files, verdict, cov):
     cfg = 'INIT Init\nNEXT Next\nCHECK_DEADLOCK FALSE\n'
     rc, out = run_tlc('KeyMerge.tla', cfg, 'keymerge-%d' % os.getpid(), workers=1, timeout=3000,
                       env_extra={'PAIRS': path}, jvm='-XX:ParallelGCThreads=4 -Xms2g -Xmx24g -Xss512m')
-    m = re.search(r'<<"MERGE",\s*(\d+),\s*(\d+),\s*(\d+)>>', out)
+    m = re.search(r'<<\s*"MERGE",\s*(\d+),\s*(\d+),\s*(\d+)\s*>>', out, re.S)
     if not m:
         log(out[-2000:])
         raise ToolError('KeyMerge did not report')
